@@ -9,6 +9,7 @@ import CocaVerif.Drv.Bs
 import CocaVerif.Drv.Stats
 import CocaVerif.Drv.Tbs
 import CocaVerif.Drv.Git
+import CocaVerif.Drv.Todo
 open Lean
 
 partial def loop {σ : Type} (h : IO.FS.Stream) (out : IO.FS.Stream) (step : σ → Json → σ × Json) (st : σ) : IO Unit := do
@@ -35,4 +36,5 @@ def main (args : List String) : IO UInt32 := do
   | ["stats"] => loop stdin stdout CocaVerif.Drv.Stats.step (); return 0
   | ["tbs"] => loop stdin stdout CocaVerif.Drv.Tbs.step (); return 0
   | ["git"] => loop stdin stdout CocaVerif.Drv.Git.step {}; return 0
+  | ["todo"] => loop stdin stdout CocaVerif.Drv.Todo.step (); return 0
   | _ => IO.eprintln "usage: driver <family>"; return 2
